@@ -1278,7 +1278,7 @@ std::ostream& expression_t::print(std::ostream& os, bool old) const
         if (get_type().is(Constants::DOUBLE)) {
             os << get_double_value();
         } else if (get_type().is_string()) {
-            os << get_string_value();
+            os << std::quoted(get_string_value());  // as the parser reads it: in quotes, with \" and \\ escaped
         } else if (get_type().is_integer()) {
             os << std::get<int32_t>(data->value);
         } else {
@@ -1563,7 +1563,7 @@ std::ostream& expression_t::print(std::ostream& os, bool old) const
             get(1).print(os << "{", old) << "} -> {";
             get(2).print(os, old) << "}";
         }
-        get(0).print(os << "(\"", old) << "\")";
+        get(0).print(os << "(", old) << ")";  // the path is a string constant and prints its own quotes
         break;
 
     case PO_CONTROL:
